@@ -1,9 +1,52 @@
-//! C23: not built yet.
+//! C23: results do not depend on hashing or scheduling nondeterminism.
+//! One case = one generated input analysed N times in fresh processes (fresh hash seeds).
+use crate::cli;
 use crate::out::Out;
-use serde_json::Value;
+use crate::pcodegen::Knobs;
+use crate::props::c21;
+use crate::rng::Rng;
+use serde_json::{json, Value};
 
-pub fn gen(_out: &mut Out, _sub: &str) {}
+fn knobs(rng: &mut Rng) -> Knobs {
+    Knobs { n_funcs: 2 + rng.below(5) as usize, max_blocks: 6 + rng.below(8) as usize, must_call: c21::TRIGGERS.to_vec(), lkm: false }
+}
 
-pub fn replay(_run: &[Value], _sub: &str) -> Vec<Value> {
-    Vec::new()
+pub fn exec_case(reset: &Value) -> Vec<Value> {
+    let seed = reset["gen_seed"].as_u64().unwrap();
+    let dir = reset["dir"].as_str().unwrap().to_string();
+    let id = reset["id"].as_str().unwrap().to_string();
+    let runs = reset["runs"].as_u64().unwrap();
+    let mut rng = Rng::new(seed);
+    let kn = knobs(&mut rng);
+    let (pj, bp) = cli::materialize(&dir, &id, &mut rng, &kn, "exec");
+    let all = cli::ALL_MODULES.join(",");
+    let mut evs = vec![json!({"ev": "reset", "gen_seed": seed, "dir": dir, "id": id, "runs": runs})];
+    for r in 0..runs {
+        // odd runs give the checks in reverse order: check ordering must not matter either
+        let sel = if r % 2 == 0 { all.clone() } else { cli::ALL_MODULES.iter().rev().cloned().collect::<Vec<_>>().join(",") };
+        let mut e = cli::invoke(&pj, &bp, false, Some(&sel), 180);
+        e["run"] = json!(r);
+        evs.push(e);
+    }
+    evs
+}
+
+pub fn replay(run: &[Value], _sub: &str) -> Vec<Value> {
+    match run.iter().find(|e| e["ev"] == "reset") {
+        Some(r) => exec_case(r),
+        None => Vec::new(),
+    }
+}
+
+pub fn gen(out: &mut Out, _sub: &str) {
+    let mut rng = Rng::new(out.seed ^ 0xC23);
+    let n = out.size(24, 300);
+    let runs = out.size(5, 12);
+    let dir = std::env::var("VERIF_SCRATCH").unwrap_or_else(|_| "/verif/.build/cli_inputs".to_string());
+    let inputs: Vec<Value> = (0..n).map(|i| json!({"ev": "reset", "gen_seed": rng.next(), "dir": dir, "id": format!("c23_{}", i), "runs": runs})).collect();
+    let cases = crate::par::map(inputs, 8, |inp| exec_case(&inp));
+    for evs in cases {
+        let nt = evs.len() > 1 && evs[1]["warnings"].as_array().map(|a| a.len() >= 4).unwrap_or(false);
+        out.emit(evs, nt);
+    }
 }
